@@ -28,7 +28,7 @@ if [ -d "harness/$lc/_child" ]; then
       # free-running pass of the same code under the race detector (the cooperative scheduler's hand-offs are
       # happens-before edges, so it cannot see unsynchronised accesses): the child run with the argument "race"
       # writes $VERIF_SCRATCH/race.json; the detector's reports are kept in race.stderr for the main run.
-      VERIF_CHILD_RACE=1 GORACE="halt_on_error=0" timeout -k 5 900 "$SCRATCH/vchild" "harness/$lc" "$TIER" race 2> "$SCRATCH/race.stderr"
+      VERIF_CHILD_RACE=1 GORACE="halt_on_error=0" timeout -k 5 300 "$SCRATCH/vchild" "harness/$lc" "$TIER" race 2> "$SCRATCH/race.stderr"
       echo $? > "$SCRATCH/race.exit"
     fi
     "$SCRATCH/vchild" "harness/$lc" "$TIER" "$@"
